@@ -387,7 +387,7 @@ pub fn arb_script() -> BoxedStrategy<Script> {
     (
         prop_oneof![2 => Just(None), 1 => (1u64..60_000).prop_map(Some)],
         any::<bool>(),
-        prop_oneof![3 => Just(("user".to_string(), "secret-pass".to_string())), 1 => (crate::gen::arb_opaque(20), crate::gen::arb_opaque(20))],
+        prop_oneof![3 => Just(("user".to_string(), "secret-pass".to_string())), 2 => (crate::gen::arb_keytext(20), crate::gen::arb_keytext(20))],
         proptest::collection::vec(ex, 1..=6),
     )
         .prop_map(|(reliable, fingerprint, (user, password), exchanges)| Script { reliable, fingerprint, user, password, exchanges })
